@@ -683,7 +683,10 @@ def side_ok(cfg, client):
         if (p['mac'] is not None and p['mac'] not in hs) or p['prf'] not in hs:
             return 'suite without its hash functions'
     cv = set(cfg['curves'])
-    if not cv or not cv <= {23, 24, 25, 29}:
+    # (a server without any ECDHE suite needs no EC implementation in the engine: the library's own minr2g / minu2g /
+    # minv2g profiles set none)
+    needs_ec = client or any(SUITES[s]['kx'].startswith('ECDHE') for s in su)
+    if (not cv and needs_ec) or not cv <= {23, 24, 25, 29}:
         return 'curves'
     if len(cfg['alpn']) != len(set(cfg['alpn'])) or any(not a for a in cfg['alpn']):
         return 'alpn'
@@ -854,6 +857,9 @@ class Checker:
             if silent:
                 e.status, e.why = 'client-auth-unjudged', silent
         self.stat('expect_' + e.status)
+        if case['kind'] == 'profile':
+            self.stat('profile_cases_judged')
+            self.stat('profile_expect_' + e.status)
         if e.why:
             self.stat('reason_' + e.why.replace(' ', '_'))
         self.stat('cmp_outcome')
